@@ -1,20 +1,2 @@
-import NucsModel
+-- see lakefile.toml: the library's roots are the Properties modules
 import NucsProofs.Spec
-import NucsProofs.Basic
-import NucsProofs.Engine.Lists
-import NucsProofs.Engine.BcInv
-import NucsProofs.Engine.BcLoop
-import NucsProofs.Engine.C08Local
-import NucsProofs.Properties.C05
-import NucsProofs.Properties.C06
-import NucsProofs.Properties.C07
-import NucsProofs.Properties.C14
-import NucsProofs.Engine.Sched
-import NucsProofs.Properties.C08
-import NucsProofs.SpecEngine
-import NucsProofs.Engine.Branch
-import NucsProofs.Properties.C09
-import NucsProofs.Engine.Greatest
-import NucsProofs.Engine.SearchInv
-import NucsProofs.Engine.SearchSound
-import NucsProofs.Properties.C01
